@@ -18,6 +18,7 @@ import (
 	"encoding/json"
 	"fmt"
 	"math/rand"
+	"os"
 	"sort"
 	"strings"
 	"time"
@@ -100,7 +101,7 @@ func genHistory(r *rand.Rand, n int) History {
 			}
 		case x < 34:
 			f := loadFormats[r.Intn(len(loadFormats))]
-			add(Op{Kind: "load", Pool: p, Branch: b, Format: f, Data: g.recs(1 + r.Intn(12))})
+			add(Op{Kind: "load", Pool: p, Branch: b, Format: f, Data: g.recs(1 + r.Intn(12)), Gzip: r.Intn(5) == 0, Chunked: r.Intn(4) == 0})
 		case x < 37:
 			// bodies the reader must reject or that are empty
 			if faulty {
@@ -150,6 +151,7 @@ func genHistory(r *rand.Rand, n int) History {
 				idx = -1
 			}
 			add(Op{Kind: "revert", Pool: p, Branch: b, Index: idx})
+		case x < 75 && false:
 		case x < 76 && len(g.pools) > 1:
 			add(Op{Kind: "removePool", Pool: p})
 			if p != "nopool" {
@@ -171,6 +173,12 @@ func genHistory(r *rand.Rand, n int) History {
 					}
 				}
 			}
+		case x < 82:
+			add(Op{Kind: "compact", Pool: p, Branch: b, Index: r.Intn(3), Vectors: r.Intn(3) == 0})
+		case x < 85:
+			add(Op{Kind: []string{"addVectors", "delVectors"}[r.Intn(2)], Pool: p, Branch: b, Index: r.Intn(4)})
+		case x < 87:
+			add(Op{Kind: "vacuum", Pool: p, Branch: b, Dryrun: r.Intn(2) == 0})
 		default:
 			qs := []string{
 				fmt.Sprintf("from %s@%s", p, b),
@@ -245,6 +253,38 @@ func scripted() []History {
 		hs = append(hs, History{Name: "load-good-prefix-then-garbage", Ops: []Op{
 			{Kind: "createPool", Pool: "p", Key: "k"}, bad, {Kind: "query", Src: "from p", Format: "zson"}}})
 	}
+	// the load direction of "late" errors: an error in the middle of an uploaded body, once per
+	// content type, plain / gzip'd / chunked
+	good := []string{`{k:1,s:"a",n:0}`, `{k:2,s:"b",n:1}`, `{k:3,s:"c",n:2}`}
+	for _, f := range loadFormats {
+		for v, variant := range []Op{{}, {Gzip: true}, {Chunked: true}} {
+			op := Op{Kind: "load", Pool: "p", Branch: "main", Format: f, Data: good, Damage: "tail", Gzip: variant.Gzip, Chunked: variant.Chunked}
+			hs = append(hs, History{Name: fmt.Sprintf("load-midbody-error:%s:%d", orAuto(f), v), Ops: []Op{
+				{Kind: "createPool", Pool: "p", Key: "k"}, op, {Kind: "query", Src: "from p", Format: "zson"}}})
+		}
+	}
+	// maintenance operations
+	var mops []Op
+	mops = append(mops, Op{Kind: "createPool", Pool: "p", Key: "k", Thresh: 60})
+	for j := 0; j < 3; j++ {
+		mops = append(mops, Op{Kind: "load", Pool: "p", Branch: "main", Format: loadFormats[j], Gzip: j == 1, Chunked: j == 2,
+			Data: []string{fmt.Sprintf(`{k:%d,s:"a",n:0}`, 10*j+1), fmt.Sprintf(`{k:%d,s:"b",n:1}`, 10*j+2), fmt.Sprintf(`{k:%d,s:"c",n:2}`, 10*j+3)}})
+	}
+	mops = append(mops,
+		Op{Kind: "addVectors", Pool: "p", Branch: "main", Index: 0},
+		Op{Kind: "addVectors", Pool: "p", Branch: "main", Index: 0},
+		Op{Kind: "delVectors", Pool: "p", Branch: "main", Index: 0},
+		Op{Kind: "delVectors", Pool: "p", Branch: "main", Index: 1},
+		Op{Kind: "compact", Pool: "p", Branch: "main", Index: 1, Vectors: true},
+		Op{Kind: "query", Src: "from p", Format: "zson"},
+		Op{Kind: "vacuum", Pool: "p", Branch: "main", Dryrun: true},
+		Op{Kind: "vacuum", Pool: "p", Branch: "main"},
+		Op{Kind: "vacuum", Pool: "p", Branch: "main"},
+		Op{Kind: "query", Src: "from p | count()", Format: "zjson", Ctrl: true},
+		Op{Kind: "compact", Pool: "p", Branch: "nobranch", Index: 0},
+		Op{Kind: "vacuum", Pool: "nopool", Branch: "main"},
+	)
+	hs = append(hs, History{Name: "maintenance", Ops: mops})
 	hs = append(hs, History{Name: "empty-pool-name", Ops: []Op{{Kind: "createPool", Pool: "", Key: "k"}}})
 	return hs
 }
@@ -287,6 +327,7 @@ func snapshot(s *side, only []string) (map[string]string, error) {
 			for tag, q := range map[string]string{
 				"objects":  fmt.Sprintf("from %s@%s:objects | count()", p, b),
 				"log":      fmt.Sprintf("from %s@%s:log | count()", p, b),
+				"vectors":  fmt.Sprintf("from %s@%s:vectors | count()", p, b),
 				"contents": fmt.Sprintf("from %s@%s", p, b),
 			} {
 				out, err := queryStrings(s.lk, nil, q)
@@ -436,6 +477,8 @@ func runHistory(h History) (res histResult) {
 			if strings.HasPrefix(h.Name, "load-good-prefix") {
 				detail = "load:malformed-body:prefix=some"
 			}
+		case op.Kind == "load" && op.Damage != "":
+			detail = "load:malformed-body:prefix=some"
 		case op.Kind == "createPool" && op.Pool == "":
 			detail = "createPool:empty-name"
 		}
@@ -545,6 +588,8 @@ func run(c *Ctx) {
 			reportHistory(c, h, results[i], shrunk)
 		}
 		lap("service: shrinking the first failure of each class")
+		runAccept(c)
+		lap("service: Accept negotiation")
 	}
 	if c.Want("late") {
 		runLate(c)
@@ -566,6 +611,9 @@ func reportHistory(c *Ctx, h History, r histResult, shrunk map[string]bool) {
 	c.Stat(fmt.Sprintf("history-len:%d", len(h.Ops)/5*5))
 	for k, n := range r.Stats {
 		c.StatN(k, n)
+	}
+	if os.Getenv("C19_DEBUG") != "" {
+		fmt.Printf("HIST %s abort=%d fails=%d class=%v\n", h.Name, r.Abort, len(r.Fails), r.Stats)
 	}
 	for _, f := range r.Fails {
 		hh := History{Name: h.Name, Ops: h.Ops[:f.Step+1]}
